@@ -37,6 +37,16 @@ def make_pairs(rng, count):
         n = rng.choice([2, 3, 3, 12])
         b0 = gen.gen_building(rng, n=n, ratio_only=lm, force=rng.choice([set(), {"pv"}, {"chp"}, {"nepb"}, {"hp"}, {"pv", "chp"}]))
         b = metacheck.scale_building(b0, 64)     # values >= 1 kWh so that sub-steps stay >= 0.01 kWh
+        if rng.random() < 0.3:
+            # a two-service system whose auxiliary energy is shared by its output energy, nearly idle at some steps: the output
+            # energy only enters through ratios, which subdivision leaves unchanged however small the sub-step values get
+            small = [Fraction(rng.randint(1, 8), 1024) if rng.random() < 0.6 else Fraction(rng.randint(64, 6400), 64) for _ in range(n)]
+            b.add("CONSUMO", id=77, service="CAL", carrier="ELECTRICIDAD", values=gen.vec(rng, n, pzero=0.0, hi=64 * 100))
+            b.add("CONSUMO", id=77, service="ACS", carrier="ELECTRICIDAD", values=gen.vec(rng, n, pzero=0.0, hi=64 * 100))
+            b.add("SALIDA", id=77, service="CAL", values=small)
+            b.add("SALIDA", id=77, service="ACS", values=[x * rng.choice([1, 2, 3]) for x in small])
+            b.add("AUX", id=77, values=gen.vec(rng, n, pzero=0.0, hi=64 * 20))
+            b.tags.add("aux_shared_by_small_outputs")
         base = epflow.EpCase("b%d" % i, {"text": text_of(b)}, fspec, user, [(k, area, lm)], tags=b.tags)
         variants = []
         sigma = list(range(n))
